@@ -736,7 +736,13 @@ def rules_c09(prop, repo):
                                  sample={"site": fb.rec["path"]})
                     if rv["adt"] in wrap_allowed:
                         R2.instance()
-                        R2.check(fb.rec["path"].split("::{closure")[0] in wrap_allowed[rv["adt"]], "%s:affine-site:%s" % (prop, fb.rec["path"]), "%s wraps an affine point outside new / from_jacobian" % fb.rec["path"],
+                        here = fb.rec["path"].split("::{closure")[0]
+                        ok_site = here in wrap_allowed[rv["adt"]]
+                        if not ok_site:
+                            # a crate-private pass-through (`fn wrap(inner) -> Self { Self(inner) }`): wraps whatever its users hand it,
+                            # so it is as good as they are — every way to reach it from outside the crate must lead through new / from_jacobian
+                            ok_site = only_reached_through(F, here, wrap_allowed[rv["adt"]])
+                        R2.check(ok_site, "%s:affine-site:%s" % (prop, fb.rec["path"]), "%s wraps an affine point outside new / from_jacobian" % fb.rec["path"],
                                  loc_of(fb, bi, si), fb.rec["path"], sample={"site": fb.rec["path"]})
                 for op in shared_ops(rv):
                     if op.get("k") == "const" and "fn" in op and (op["fn"].get("def") in wrap_allowed):
@@ -754,6 +760,37 @@ def rules_c09(prop, repo):
     R2.note("observation (outside the property's statement): public coordinate mutators exist on validated affine points: %s" % muts)
     out.append(R2.finish())
     return out
+
+
+def only_reached_through(F, path, allowed):
+    """In the monomorphic call graph (calls and function-item references), is every chain of users of the crate-private function
+    `path` cut by one of the `allowed` functions before it reaches anything code outside the crate can name?"""
+    if F.is_exported(path):
+        return False
+    users = {}
+    for i in F.raw["instances"]:
+        for c in list(i.get("calls") or []) + list(i.get("refs") or []):
+            k = c.get("inst") or c.get("def")
+            if k:
+                users.setdefault(k, set()).add((i["def"], i["inst"]))
+    seen, todo = set(), [path]
+    found_user = False
+    while todo:
+        x = todo.pop()
+        if x in seen:
+            continue
+        seen.add(x)
+        for (d, inst) in users.get(x, ()):
+            found_user = True
+            root = d.split("::{closure")[0]
+            if root in allowed:
+                continue
+            if root in F.bodies and F.is_exported(root):
+                return False
+            # a private function of the crate, or a library adaptor instantiated with the function item (`Option::map::<_, wrap>`):
+            # whoever uses that instance is the user
+            todo.append(inst)
+    return found_user
 
 
 def curve_true_blocks(repo, fb):
